@@ -52,13 +52,13 @@ def gen_cases(ctx):
                 cases.append(("lub3", list(t), "exh"))
     for w in (3, 4):
         pool = vsa.all_sis(w)
-        for _ in range(ctx.pick(1500, 40000)):
+        for _ in range(ctx.pick(5000, 40000)):
             cases.append(("lub3", [rng.choice(pool) for _ in range(3)], "small"))
-        for _ in range(ctx.pick(1500, 40000)):
+        for _ in range(ctx.pick(5000, 40000)):
             a, b = rng.choice(pool), rng.choice(pool)
             for op in pair_ops:
                 cases.append((op, [a, b], "small"))
-    for _ in range(ctx.pick(300, 8000)):
+    for _ in range(ctx.pick(1500, 8000)):
         w = rng.choice(vsa.WIDE_WIDTHS)
         a, b, c = vsa.rand_si(rng, w), vsa.rand_si(rng, w), vsa.rand_si(rng, w)
         if rng.random() < 0.4:      # overlapping operands exercise the meet
